@@ -534,8 +534,9 @@ def xyz2eq(xin, yin, zin, units="deg", stomp=False):
     if units == "deg":
         np.rad2deg(theta, theta)
         np.rad2deg(phi, phi)
-
-    atbound(theta, 0.0, 360.0)
+        atbound(theta, 0.0, 360.0)
+    else:
+        atbound(theta, 0.0, 2.0 * PI, period=2.0 * PI)
 
     # theta->ra, phi->dec
     return theta, phi
@@ -633,15 +634,15 @@ def gcirc(ra1deg, dec1deg, ra2deg, dec2deg, getangle=False):
 
 
 # utility functions
-def atbound(longitude, minval, maxval):
+def atbound(longitude, minval, maxval, period=360.0):
     (w,) = np.where(longitude < minval)
     while w.size > 0:
-        longitude[w] += 360.0
+        longitude[w] += period
         (w,) = np.where(longitude < minval)
 
     (w,) = np.where(longitude > maxval)
     while w.size > 0:
-        longitude[w] -= 360.0
+        longitude[w] -= period
         (w,) = np.where(longitude > maxval)
 
     return
